@@ -176,7 +176,11 @@ def c12_r3(ctx):
                     ctx.viol((f.id, "positions-before-sort", fld), "positions in rule.%s are handed out before the list is sorted: the recorded sub-index then names a different target than the same position in the (sorted) node, so a dependent is sent a sibling target's hash" % fld, f.where(l2["header"]))
     # the frame is built from this iteration's (sorted) rule and the running index
     ro = f.origins_of_operand(fc.args[0])
-    if ro != lp["elem"]:
+    # `for (i, rule) in rules.drain(..).enumerate()`: the rule is the second component
+    rule_elem = lp["elem"]
+    if any(("adapt", "enumerate") in o for o in lp["iter"]):
+        rule_elem = {e + (("field", 1),) for e in lp["elem"]}
+    if ro != rule_elem:
         ctx.viol((f.id, "frame-foreign-rule"), "the frame is not built from this iteration's rule", fc.where)
     a = ctx.P.facts.adts.get("sort::TopologicalSortMachine")
     ctx.need(a is not None, "TopologicalSortMachine")
